@@ -56,9 +56,12 @@ ASSUMPTIONS = [
     'objects, function values of an earlier execution called after a later one, two models executed in turn) are checked on the implementation '
     'only, against the closed binding formula and the reference: a run of the Lean machine always starts from the syntax tree, it has no '
     'identity of a parsed model; executions with fresh globals of the modelled families are also compared with the model outcome',
+    'a function statement reached several times in one run with the name rebound in between (stream redefine): compared with the Lean machine up '
+    'to 5 passes and for the 18 modelled library names (stringLength and the longer runs: implementation only, closed form); a `for` loop is '
+    'lowered to calls of the global names arrayLength / arrayGet, so the for shape is not combined with a host that shadows arrayLength',
 ]
 TRUSTED = ['reference interpreter of scoping / calling convention / library injection (class Ref, with its own systemGlobalGet/Set, its own systemPartial [an immutable snapshot of the bound arguments per partial value] and its own include: an included script runs at top level; arguments are evaluated left to right BEFORE the callee is looked up) and the closed-form '
-           'oracles (expected_binding, the include-scope matrix scope_cell_case, the callee-rebinding matrix rebind_case / oracle_rebind_host, the partial-history expectation ph_build, the re-execution histories check_reexec (every execution of one model object = the closed binding formula), the include-position metamorphic relation, the source-spelling '
+           'oracles (expected_binding, the include-scope matrix scope_cell_case, the callee-rebinding matrix rebind_case / oracle_rebind_host, the partial-history expectation ph_build, the re-execution histories check_reexec (every execution of one model object = the closed binding formula), the repeated-definition histories check_redefine (every execution of a function statement rebinds the global), the include-position metamorphic relation, the source-spelling '
            'renderer Speller / header_text whose texts are expected to mean the structured program they were rendered from) in '
            'harness/props/C04.py; the library functions themselves, the operators and value_string are shared '
            'with the implementation (they belong to C03/C13/C15)']
@@ -2625,6 +2628,239 @@ def stream_reexec(ctx):
     st.exhaustive = False
 
 
+# ---------------------------------------------------------------------------------------------------------------------
+# A FUNCTION STATEMENT REACHED SEVERAL TIMES WITHIN ONE RUN, the name rebound between the passes (R10C04-m1 family).  "a script-defined
+# function replaces a library function of the same name": the clause is about every EXECUTION of the function statement, not about the
+# first one - a definition in a while / for body, one reached again through a jump back, two definitions of one name selected
+# alternately by an if / else, a loop in a function body or in an included script, a definition in a function body that is called
+# several times.  Between two passes the name is rebound by every rebinding action of this module (systemGlobalSet to the binding the
+# name had at the start [the library function], another library function, a script function, a partial, null, a number; a top-level
+# assignment; an include that defines or assigns it; another function statement of that name).  Whatever an execution keeps per
+# statement, the k-th execution of the statement binds the global again: closed-form log (after every pass and after every rebinding
+# a call of the name reaches the body that the LAST executed binding names).
+# ---------------------------------------------------------------------------------------------------------------------
+
+RD_NAMES = [('script', 'fa'), ('library', 'arrayNew'), ('library', 'arrayLength'), ('library', 'objectGet'), ('library', 'stringLength'),
+            ('unbound', 'zz'), ('host-function', 'zz'), ('host-value', 'zz'), ('host-null', 'zz'), ('host-shadow', 'arrayLength')]
+RD_SHAPES = ['while', 'for', 'jump', 'alternate', 'function-while', 'function-calls', 'included']
+RD_ACTIONS = ['none', 'gset-own', 'gset-lib', 'gset-script', 'gset-null', 'gset-value', 'gset-partial', 'assign', 'assign-own',
+              'include-function', 'include-assign', 'function-other']
+RD_TOP_ONLY = ('assign', 'assign-own')                   # inside a function body an assignment makes a local (the `scope` matrix)
+RD_SCALE_PASSES = [2, 9, 10, 11, 16, 17, 64, 65, 100, 101, 128, 129, 256, 1000]
+RD_MODEL_PASSES = 5
+
+
+def rd_before(before, name):
+    """-> (host globals spec, the binding of `name` when the script starts)"""
+    return {'script': ({}, ('script', 'old')), 'library': ({}, ('lib', name)), 'unbound': ({}, 'null'),
+            'host-function': ({name: {'$lib': 'arrayNew'}}, ('lib', 'arrayNew')), 'host-value': ({name: 7}, 'value'),
+            'host-null': ({name: None}, 'null'), 'host-shadow': ({name: {'$lib': 'arrayGet'}}, ('lib', 'arrayGet'))}[before]
+
+
+def rd_other_lib(name):
+    return 'arrayLength' if name == 'arrayNew' else 'arrayNew'
+
+
+def rd_after(action, binding, saved, name):
+    return {'none': binding, 'gset-own': saved, 'gset-lib': ('lib', rd_other_lib(name)), 'gset-script': ('script', 'new'), 'gset-null': 'null',
+            'gset-value': 'value', 'gset-partial': 'partial', 'assign': ('script', 'new'), 'assign-own': saved,
+            'include-function': ('script', 'inc'), 'include-assign': ('script', 'new'), 'function-other': ('script', 'oth')}[action]
+
+
+def rd_outcome(binding, args):
+    """a call of a name bound to `binding` (never null here) -> (log lines, result)"""
+    mods = fw.impl()
+    vs = mods['value'].value_string
+    if isinstance(binding, tuple) and binding[0] == 'script':
+        return [f'{binding[1]}:{vs(args[0])}:{vs(args[1])}'], binding[1]
+    if binding == 'partial':
+        return [f'new:b:{vs(args[0])}'], 'new'
+    if isinstance(binding, tuple):                                   # ('lib', library function name)
+        try:
+            return [], mods['library'].SCRIPT_FUNCTIONS[binding[1]](list(args), {'globals': {}})
+        except Exception as exc:  # pylint: disable=broad-except
+            return [], exc.return_value if isinstance(exc, mods['value'].ValueArgsError) else None
+    return [], None                                                  # a bound non-function: the call yields null
+
+
+def rd_action_stmts(name, action):
+    gset = lambda e: [asg(None, call('systemGlobalSet', string(name), e))]  # noqa: E731
+    return {'none': [asg('nop', num(0))], 'gset-own': gset(var('saved')), 'gset-lib': gset(var(rd_other_lib(name))), 'gset-script': gset(var('nw')),
+            'gset-null': gset(var('null')), 'gset-value': gset(num(5)), 'gset-partial': gset(call('systemPartial', var('nw'), string('b'))),
+            'assign': [asg(name, var('nw'))], 'assign-own': [asg(name, var('saved'))],
+            'include-function': [{'k': 'include', 'includes': [{'url': 'def.bare'}]}],
+            'include-assign': [{'k': 'include', 'includes': [{'url': 'asg.bare'}]}],
+            'function-other': [fdef(name, ['v', 'w'], rb_marker('oth'))]}[action]
+
+
+def rd_guarded_call(name, tag, second):
+    """if the name is bound to null, log that; else call it and probe the result"""
+    return {'k': 'if', 'c': wf_binary('!=', call('systemGlobalGet', string(name)), var('null')),
+            't': [asg('r2', call(name, string(tag), second))] + probe_stmts('r2'), 'else': {'k': 'else', 'b': [log_stmt(string('null-bound'))]}}
+
+
+def rd_def_tag(shape, k):
+    return ('even', 'odd')[k % 2] if shape == 'alternate' else 'def'
+
+
+def rd_pieces(name, shape, seq, passes):
+    """-> (first: the definition(s) + a call, rest: rebinding action of this pass + guarded call)"""
+    if shape == 'alternate':
+        definition = {'k': 'if', 'c': wf_binary('==', wf_binary('%', var('ix'), num(2)), num(0)), 't': [fdef(name, ['v', 'w'], rb_marker('even'))],
+                      'else': {'k': 'else', 'b': [fdef(name, ['v', 'w'], rb_marker('odd'))]}}
+    else:
+        definition = fdef(name, ['v', 'w'], rb_marker('def'))
+    first = [definition, asg('r1', call(name, string('a'), var('ix')))] + probe_stmts('r1')
+    if len(set(seq)) == 1:
+        act = rd_action_stmts(name, seq[0])
+    else:
+        node = None
+        for k in reversed(range(len(seq))):
+            cond = wf_binary('==', wf_binary('%', var('ix'), num(len(seq))), num(k))
+            node = {'k': 'if' if k == 0 else 'elif', 'c': cond, 't': rd_action_stmts(name, seq[k]), 'else': node}
+        act = [node]
+    return first, act + [rd_guarded_call(name, 'b', var('ix'))]
+
+
+def rd_loop(shape, body, passes):
+    incr = asg('ix', wf_binary('+', var('ix'), num(1)))
+    if shape == 'for':
+        return [{'k': 'for', 'value': 'ix', 'index': None, 'vals': call('arrayNew', *[num(i) for i in range(passes)]), 'b': body}]
+    if shape == 'jump':
+        return [asg('ix', num(0)), {'k': 'label', 'name': 'again'}] + body + \
+            [incr, {'k': 'jump', 'name': 'again', 'c': wf_binary('<', var('ix'), num(passes))}]
+    return [asg('ix', num(0)), {'k': 'while', 'c': wf_binary('<', var('ix'), num(passes)), 'b': body + [incr]}]
+
+
+def rd_build(case):
+    """-> (implementation model, {url: text}, host globals spec, expected log, max statements)"""
+    before, name, shape, seq, passes = case['before'], case['name'], case['shape'], case['actions'], case['passes']
+    host, b_before = rd_before(before, name)
+    text_of = lambda stmts: '\n'.join(progen.render(stmts)) + '\n'  # noqa: E731
+    stmts_of = lambda stmts: parse(text_of(stmts))['statements']  # noqa: E731
+    files = {'def.bare': [fdef(name, ['v', 'w'], rb_marker('inc'))], 'asg.bare': [asg(name, var('nw'))]}
+    prelude = [fdef('nw', ['v', 'w'], rb_marker('new'))] + ([fdef(name, ['v', 'w'], rb_marker('old'))] if before == 'script' else []) + \
+        [asg('saved', call('systemGlobalGet', string(name)))]
+    first, rest = rd_pieces(name, shape, seq, passes)
+    final = [rd_guarded_call(name, 'c', num(passes))]
+    if shape == 'function-while':
+        # hand-built: the lowered loop (with the function statement) is the body of main()
+        model = {'statements': stmts_of(prelude) + [{'function': {'name': 'main', 'statements': stmts_of(rd_loop('while', first + rest, passes) + final)}},
+                                                    {'expr': {'name': 'out', 'expr': progen.impl_expr(call('main'))}}]}
+    elif shape == 'function-calls':
+        # hand-built: the function statement stands in the body of outer(ix), which is called once per pass of a top-level loop
+        model = {'statements': stmts_of(prelude) + [{'function': {'name': 'outer', 'args': ['ix'], 'statements': stmts_of(first)}}] +
+                 stmts_of(rd_loop('while', [asg('out', call('outer', var('ix')))] + rest, passes) + final)}
+    elif shape == 'included':
+        files['loop.bare'] = rd_loop('while', first + rest, passes) + final
+        model = parse(text_of(prelude + [{'k': 'include', 'includes': [{'url': 'loop.bare'}]}]))
+    else:
+        model = parse(text_of(prelude + rd_loop(shape, first + rest, passes) + final))
+    # closed form
+    log, binding = [], b_before
+    for k in range(passes):
+        binding = ('script', rd_def_tag(shape, k))                    # the function statement has just been executed
+        lines, res = rd_outcome(binding, ['a', float(k)])
+        log += lines + probe_lines(res)
+        binding = rd_after(seq[k % len(seq)], binding, b_before, name)
+        if binding == 'null':
+            log.append('null-bound')
+        else:
+            lines, res = rd_outcome(binding, ['b', float(k)])
+            log += lines + probe_lines(res)
+    if binding == 'null':
+        log.append('null-bound')
+    else:
+        lines, res = rd_outcome(binding, ['c', float(passes)])
+        log += lines + probe_lines(res)
+    return model, {url: text_of(fp) for url, fp in files.items()}, host, log, 200 + 60 * passes
+
+
+def rd_request(case):
+    model, ftexts, host, _, max_statements = rd_build(case)
+    counter = [0]
+    return {'op': 'exec', 'script': progen.canon_script(model, counter), 'globals': wire_globals(host), 'max': max_statements,
+            'fuel': 40 * max_statements, 'files': [[url, progen.canon_script(parse(text), counter)] for url, text in sorted(ftexts.items())]}
+
+
+def check_redefine(case, outcome=None):
+    model, ftexts, host, want, max_statements = rd_build(case)
+    impl = run_impl(model, host, max_statements=max_statements, ftexts=ftexts)
+    if outcome is not None:
+        outcome.append(impl)
+    if 'error' in impl or 'hostexc' in impl or impl.get('log') != want:
+        got = impl.get('log') if 'error' not in impl and 'hostexc' not in impl else {k: impl.get(k) for k in ('error', 'hostexc', 'log') if k in impl}
+        return [('function-statement-rebinds-on-every-execution', want, got)]
+    return []
+
+
+def rd_modelled(case):
+    return case['passes'] <= RD_MODEL_PASSES and (case['before'] != 'library' or case['name'] in MODEL_LIB)
+
+
+def redefine_cases(ctx):
+    def valid(shape, action, before=None):
+        # the `for` statement is lowered to calls of the GLOBAL names arrayLength (once, before the first pass) and arrayGet (every pass): a
+        # host that shadows arrayLength with something else has no working for loop (not this property's matter); arrayGet is never redefined
+        return not (shape == 'function-while' and action in RD_TOP_ONLY) and not (shape == 'for' and before == 'host-shadow')
+    # (a) exhaustive: binding before x shape x one rebinding action on every pass, 3 passes
+    for before, name in RD_NAMES:
+        for shape in RD_SHAPES:
+            for action in RD_ACTIONS:
+                if valid(shape, action, before):
+                    yield {'before': before, 'name': name, 'shape': shape, 'actions': [action], 'passes': 3, 'part': 'matrix'}
+    # (b) random action sequences (a different rebinding on every pass), 2 .. 2L+1 passes
+    rng = ctx.rng('redefine')
+    for _ in range(ctx.scale(400, 8000)):
+        before, name = rng.choice(RD_NAMES)
+        shape = rng.choice([sh for sh in RD_SHAPES if valid(sh, 'none', before)])
+        seq = [rng.choice([a for a in RD_ACTIONS if valid(shape, a)]) for _ in range(rng.randint(2, 5))]
+        yield {'before': before, 'name': name, 'shape': shape, 'actions': seq, 'passes': rng.randint(2, 2 * len(seq) + 1), 'part': 'random'}
+    # (c) SCALE on the number of passes
+    sizes = RD_SCALE_PASSES if ctx.scale(0, 1) == 1 else [n for n in RD_SCALE_PASSES if n <= 129]
+    for before, name in (('library', 'arrayLength'), ('unbound', 'zz')):
+        for shape in ('while', 'for', 'jump', 'alternate', 'function-while', 'included'):
+            for actions in (['gset-own'], ['function-other'], ['include-assign', 'gset-lib', 'none']):
+                for passes in sizes:
+                    yield {'before': before, 'name': name, 'shape': shape, 'actions': actions, 'passes': passes, 'part': 'scale'}
+
+
+def stream_redefine(ctx):
+    st = ctx.stream('redefine', 'a function statement REACHED SEVERAL TIMES within one run with the name rebound between the passes: the name is {a '
+                                'script function fa, the library functions arrayNew / arrayLength / objectGet / stringLength, a fresh name unbound / '
+                                'host-bound to a function / a number / null, a library name the host shadows with another library function} x the '
+                                'statement stands in {a while body, a for body, a label .. jumpif loop, an if / else of two definitions of the one '
+                                'name taken alternately, a while loop in the body of a script function [hand-built], the body of a script function '
+                                'called once per pass [hand-built], a while loop of an included script} x between the passes {nothing, '
+                                'systemGlobalSet(name, the binding of the start [= the library function] / another library function / a script '
+                                'function / null / a number / a partial), top-level assignment name = script function / name = binding of the start, '
+                                'include of a script that defines `function name` / that assigns name, another function statement of that name}: '
+                                '(a) exhaustive with 3 passes, (b) random sequences of 2-5 different actions over 2-11 passes, (c) SCALE 2,9,10,11,'
+                                '16,17,64,65,100,101,128,129 (thorough: 256, 1000) passes. After the definition of every pass and after every '
+                                'rebinding a call of the name must log the body of the LAST executed binding (closed form, implementation-side '
+                                'oracle); up to 5 passes and modelled library names also execute_script vs the Lean machine (result, log, final '
+                                'globals, statement count). Non-trivial = at least 2 passes and a rebinding action')
+    cases = list(redefine_cases(ctx))
+    order = [ix for ix, case in enumerate(cases) if rd_modelled(case)]
+    resps = dict(zip(order, ctx.driver.batch([rd_request(cases[ix]) for ix in order])))
+    failed = set()
+    for ix, case in enumerate(cases):
+        scale_key = json.dumps([case['before'], case['name'], case['shape'], case['actions']]) if case['part'] == 'scale' else None
+        if scale_key in failed:
+            continue                                            # a smaller number of passes of this family already is a witness
+        outcome = []
+        bad = check_redefine(case, outcome)
+        st.case(case, nontrivial=case['passes'] >= 2 and any(a != 'none' for a in case['actions']),
+                tags=['part:' + case['part'], 'before:' + case['before'], 'name:' + case['name'], 'shape:' + case['shape'], f"passes:{case['passes']}"] +
+                sorted({'action:' + a for a in case['actions']}))
+        if ix in resps:
+            ctx.compare('redefine', {'kind': 'redefine', 'case': case}, outcome[0], progen.canon_model_out(resps[ix]))
+        witness_all(ctx, 'redefine', {'case': case}, bad)
+        if bad and scale_key is not None:
+            failed.add(scale_key)
+    st.exhaustive = False
+
+
 def streams(ctx):
     stream_handbuilt(ctx)
     stream_binding(ctx)
@@ -2633,6 +2869,7 @@ def streams(ctx):
     stream_exprmode(ctx)
     stream_includescope(ctx)
     stream_rebind(ctx)
+    stream_redefine(ctx)
     stream_partialhist(ctx)
     stream_reexec(ctx)
     stream_calls(ctx)
@@ -2667,6 +2904,11 @@ def search(ctx):
         bad = check_reexec(case)
         if bad:
             witness_all(ctx, 'reexec', {'case': case}, bad)
+            return
+    for case in redefine_cases(ctx):
+        bad = check_redefine(case)
+        if bad:
+            witness_all(ctx, 'redefine', {'case': case}, bad)
             return
     for cell in scope_cells():
         bad = check_scope_cell(cell)
@@ -2725,6 +2967,8 @@ def replay(witness):
         bad = check_rebind_cell(inp['cell'])
     elif kind == 'reexec':
         bad = check_reexec(inp['case'])
+    elif kind == 'redefine':
+        bad = check_redefine(inp['case'])
     elif kind == 'rebind-host':
         bad = oracle_rebind_host(inp['name'], inp['mode'], inp['before'], inp['after'])
     elif kind == 'handbuilt':
@@ -2772,7 +3016,9 @@ LEVEL_TEXT = ('Theorems about the Lean mirror of runtime.py (evaluate_expression
               'arguments rebind the callee (binding before x rebinding action x call site), generated programs with side-effecting '
               'arguments and rebinding of function names, histories of partial applications used again after they served as the base of '
               'other partials (aliasing families x sizes up to 1000) against the compiled model, one parsed model object executed 2-65 times under four '
-              'globals / options schedules for the whole calling-convention matrix, partial histories, repeated function statements and generated programs, and an '
+              'globals / options schedules for the whole calling-convention matrix, partial histories, repeated function statements and generated programs, a '
+              'function statement executed 2-1000 times within one run (loop bodies, jumps back, alternating definitions, function bodies, included loops) with '
+              'every rebinding action between the passes, and an '
               'independent Python reference of the convention plus closed-form and metamorphic oracles run on the implementation.')
 LEVEL_NOTE = ('Trusted: Lean kernel; the correspondence harness with its reference interpreter. The Lean host models 18 library functions; '
               'arraySort comparators and the expression-mode built-in table are checked on the implementation only (the lookup theorems hold '
